@@ -145,6 +145,7 @@ func cellStores(a *ssa.Alloc) (stores []*ssa.Store, ok bool) {
 type Ex struct {
 	w     *World
 	depth int
+	short bool
 	// bind maps free variables of closures to their bindings when unique.
 	seen map[ssa.Value]bool
 }
@@ -152,6 +153,12 @@ type Ex struct {
 func (w *World) Expr(v ssa.Value) string {
 	e := &Ex{w: w, seen: map[ssa.Value]bool{}}
 	return e.expr(v, 0)
+}
+
+// Short renders a compact expression: shallow depth, cells shown by type, module prefixes dropped.
+func (w *World) Short(v ssa.Value) string {
+	e := &Ex{w: w, seen: map[ssa.Value]bool{}, short: true}
+	return shortName(e.expr(v, 0))
 }
 
 const exprMaxDepth = 14
@@ -198,7 +205,7 @@ func (e *Ex) expr(v ssa.Value, d int) string {
 	if v == nil {
 		return "<nil>"
 	}
-	if d > exprMaxDepth {
+	if d > exprMaxDepth || (e.short && d > 5) {
 		return "…"
 	}
 	if e.seen[v] {
@@ -332,6 +339,11 @@ func (e *Ex) load(u *ssa.UnOp, d int) string {
 		}
 	}
 	if a, ok := base.(*ssa.Alloc); ok {
+		if stores, ok2 := cellStores(a); ok2 && len(stores) > 0 && e.short {
+			if rs := cellReaching(stores, u); len(rs) != 1 {
+				return "var<" + types.TypeString(a.Type().(*types.Pointer).Elem(), shortQual) + ">"
+			}
+		}
 		if stores, ok2 := cellStores(a); ok2 && len(stores) > 0 {
 			rs := cellReaching(stores, u)
 			e.seen[u] = true
